@@ -912,6 +912,31 @@ Definition check_convert (c : ctab * packet * obs (cls * body) * obs packet) : b
   | _ => is_skip op
   end.
 
+(** ** Sequences of conversions: each result is kept and re-read after the whole sequence.  In the
+    model a conversion is a function of its own input only ([seq_to] / [seq_from] are [map]); the
+    implementation's re-read results are compared with it element by element. *)
+Definition seq_to (codec : layer -> bytes -> cres) (k : cls) (ms : list body) : list (out packet) :=
+  map (to_packet_any codec k) ms.
+Definition seq_from (codec : layer -> bytes -> cres) (k : cls) (kw : kwargs) (ps : list packet) : list (out body) :=
+  map (from_packet_any codec k kw) ps.
+Definition seq_convert (ps : list packet) : list (out sendmsg) := map hub_convert ps.
+
+Fixpoint all2 {A B} (f : A -> B -> bool) (a : list A) (b : list B) : bool :=
+  match a, b with
+  | [], [] => true
+  | x :: a', y :: b' => f x y && all2 f a' b'
+  | _, _ => false
+  end.
+
+Definition check_seq_to (c : ctab * cls * list (body * obs packet)) : bool :=
+  let '(t, k, l) := c in
+  all2 (out_matches packet_eqb) (seq_to (codec_of t) k (map fst l)) (map snd l).
+Definition check_seq_from (c : ctab * cls * list (packet * obs (cls * body))) : bool :=
+  let '(t, k, l) := c in
+  all2 (out_matches tagged_eqb) (map (omap (fun b => (k, b))) (seq_from (codec_of t) k kw_default (map fst l))) (map snd l).
+Definition check_seq_convert (c : list (packet * obs (cls * body))) : bool :=
+  all2 (out_matches tagged_eqb) (map (omap tag_send) (seq_convert (map fst c))) (map snd c).
+
 (** ** Well-formedness (the premises of the round-trip theorems), all boolean *)
 Definition is_none {A} (o : option A) : bool := match o with None => true | Some _ => false end.
 Definition is_some {A} (o : option A) : bool := negb (is_none o).
